@@ -432,11 +432,40 @@ def cond_formula(e: ast.AST, roles: Roles, extra: Dict[str, str], binder_seen: l
             binder_seen.append('elem')
             ex2 = dict(extra, **{tgt.id: 'elem'})
             return ('and', [cond_formula(c, roles, ex2, binder_seen) for c in cs]) if cs else ('const', True)
+    lifted = _lift_ifexp(e)
+    if lifted is not None:
+        return cond_formula(lifted, roles, extra, binder_seen)
     ca = canon_atom(e, lambda x: roles.render(x, extra))
     if ca is not None:
         a = F_atom(ca[0])
         return F_not(a) if ca[1] else a
     return F_atom('opaque:' + roles.render(e, extra))
+
+
+def _lift_ifexp(e: ast.AST) -> Optional[ast.AST]:
+    """`(A if c else B) op X`  ->  `(A op X) if c else (B op X)` for a conditional expression that is a direct operand of a
+    comparison or a direct argument of a call (a hoisted `anchor = before if before is not None else after`)"""
+    if isinstance(e, ast.Compare) and len(e.ops) == 1:
+        for side in ('left', 'right'):
+            v = e.left if side == 'left' else e.comparators[0]
+            if isinstance(v, ast.IfExp):
+                def mk(x):
+                    n = copy.copy(e)
+                    if side == 'left':
+                        n.left = x
+                    else:
+                        n.comparators = [x]
+                    return n
+                return ast.IfExp(test=v.test, body=mk(v.body), orelse=mk(v.orelse))
+    if isinstance(e, ast.Call) and not e.keywords:
+        for i, v in enumerate(e.args):
+            if isinstance(v, ast.IfExp):
+                def mk(x, i=i):
+                    n = copy.copy(e)
+                    n.args = list(e.args[:i]) + [x] + list(e.args[i + 1:])
+                    return n
+                return ast.IfExp(test=v.test, body=mk(v.body), orelse=mk(v.orelse))
+    return None
 
 
 class GF:
